@@ -105,6 +105,9 @@ func (p *parser) parseStmt() *Stmt {
 			p.expect(";")
 			if !p.isP(")") {
 				s.post = p.parseExpr()
+				if p.isP(",") {
+					panic(unsupported(line, "comma operator"))
+				}
 			}
 			p.expect(")")
 			p.loopDepth++
@@ -151,6 +154,9 @@ func (p *parser) parseStmt() *Stmt {
 		}
 	}
 	e := p.parseExpr()
+	if p.isP(",") {
+		panic(unsupported(line, "comma operator"))
+	}
 	p.expect(";")
 	return &Stmt{kind: sExpr, e: e, line: line}
 }
@@ -210,11 +216,9 @@ func (p *parser) parseDecl() *Stmt {
 	if len(all) == 1 {
 		return first
 	}
-	return &Stmt{kind: sBlockNoScope(), body: all, line: line}
+	// several declarators in one declaration execute like consecutive statements
+	return &Stmt{kind: sBlock, body: all, line: line}
 }
-
-// sBlockNoScope: several declarators in one declaration execute like consecutive statements.
-func sBlockNoScope() stmtKind { return sBlock }
 
 func (p *parser) parseDeclarator(bt *Type, sp Space, isConst bool, line int) *Stmt {
 	f := p.fn
